@@ -55,6 +55,9 @@ def run(ctx):
                     cases.append(('drop', s['tree'], lev, reduced))
             if len(s['flat']['nodes'][0]) > 1:
                 cases.append(('flatten', s['tree'], None, s['flat']))
+                # flatten together with a dropped level: still the one-level tree, union of ALL lists
+                for lev, reduced in s['drops']:
+                    cases.append(('drop+flatten', s['tree'], lev, s['flat']))
             cases.append(('absent', s['tree'], 77, s['tree']))
         ctx.part('s2c', shapes=len(shapes), cases_available=len(cases))
         if quick:
@@ -77,8 +80,23 @@ def run(ctx):
                 img['cfg']['drop'] = lev
                 base['tree'] = red
                 base['markers'] = {k: v for k, v in base['markers'].items()}
-            elif kind == 'flatten':
+            elif kind in ('flatten', 'drop+flatten'):
                 img['cfg']['flatten'] = True
+                if kind == 'drop+flatten':
+                    img['cfg']['drop'] = lev
+                    # give the parents of the dropped level a gene that occurs in no other list, so
+                    # that leaving their lists out of the union changes the genes used
+                    usable = [g for g in img['qgenes'] if g <= img['G']]
+                    others = set(g for k, v in img['markers'].items() if not k.startswith(f'{lev}/') for g in v)
+                    private = [g for g in usable if g not in others]
+                    i = tj['hier'].index(lev)
+                    for n in tj['nodes'][i]:
+                        if private:
+                            img['markers'][f'{lev}/{n}'] = sorted(set(img['markers'].get(f'{lev}/{n}', []))
+                                                                 | {private[0]})
+                    base = copy.deepcopy(img)
+                    base['cfg']['drop'] = None
+                    base['cfg']['flatten'] = False
                 base['tree'] = red
                 allg = sorted(set(g for v in img['markers'].values() for g in v))
                 base['markers'] = {'0/0': allg}
@@ -108,7 +126,7 @@ def run(ctx):
                 finer = hier[hier.index(lev) + 1]
                 levels = [l for l in hier if l != lev]
                 inferred = [[lev, finer]]
-            elif kind == 'flatten':
+            elif kind in ('flatten', 'drop+flatten'):
                 levels = [hier[-1]]
                 inferred = []
                 for j in range(len(hier) - 2, -1, -1):
@@ -130,7 +148,7 @@ def run(ctx):
             ctx.sample({'kind': p['kind'], 'tree': p['tree'], 'levels': p['levels'],
                         'inferred': p['inferred'], 'image_first': p['image'][:1], 'base_first': p['base'][:1]})
         ctx.part('pairs', compared=len(pairs), rejected=rej,
-                 kinds={k: sum(1 for p in pairs if p['kind'] == k) for k in ('drop', 'flatten', 'absent')})
+                 kinds={k: sum(1 for p in pairs if p['kind'] == k) for k in ('drop', 'flatten', 'drop+flatten', 'absent')})
 
 
 def replay(ctx, path):
